@@ -90,6 +90,14 @@ def _with_data(edges):
 CHAIN4 = FakeMolecule({1: {}, 2: {}, 3: {}, 4: {}, 0: {}}, {1: [2], 2: [1, 3], 3: [2, 0], 4: [], 0: [3]}, {frozenset((1, 2)): {'distance': 0.5}})
 
 
+def _first(items):
+    return items[0] if isinstance(items, list) and items else items
+
+
+GOSITES = FakeGraph({1: {'atype': 'P2', 'resid': 3, 'chain': 'A'}, 2: {'atype': 'mol_3', 'resid': 3, 'chain': 'A'}, 3: {'atype': 'mol_-3', 'resid': -3, 'chain': 'A'},
+                     4: {'atype': 'mol_0', 'resid': 0, 'chain': 'A'}, 5: {'atype': 'mol_3b', 'resid': 3, 'chain': 'B'}, 6: {'atype': 'Q1', 'resid': 7, 'chain': 'A'}})
+
+
 def _lam(text):
     return ('lambda', text)
 
@@ -224,6 +232,13 @@ CONTRACTS = {
         ((FakeGraph({1: {'PTM_atom': True}, 2: {'PTM_atom': False}, 3: {}}), 2), {}, True, ''),
         ((FakeGraph({1: {'PTM_atom': True}, 2: {'PTM_atom': False}, 3: {}}), 3), {}, True, 'docstring default: exists'),
     ],
+    ('vermouth/rcsu/go_utils.py', 'get_go_type_from_attributes'): [
+        ((GOSITES, 'mol'), {'resid': 3, 'chain': 'A'}, 'mol_3', 'the site type of the residue, not the ordinary bead of the same residue', _first),
+        ((GOSITES, 'mol'), {'resid': -3, 'chain': 'A'}, 'mol_-3', 'a negative residue number is a residue number', _first),
+        ((GOSITES, 'mol'), {'resid': 0, 'chain': 'A'}, 'mol_0', 'residue number 0', _first),
+        ((GOSITES, 'mol'), {'resid': 3, 'chain': 'B'}, 'mol_3b', 'the chain is part of the identity', _first),
+        ((GOSITES, 'mol'), {'resid': 7, 'chain': 'A'}, (RAISES, 'KeyError'), 'documented: KeyError when no site matches'),
+    ],
     ('vermouth/molecule.py', 'attributes_match'): [
         (({'resname': 'ALA', 'atomname': 'CA'}, {'atomname': 'CA'}), {}, True, 'every template attribute equal'),
         (({'resname': 'ALA', 'atomname': 'CA'}, {'atomname': 'CB'}), {}, False, ''),
@@ -271,6 +286,7 @@ SERVES = {
     ('vermouth/processors/do_mapping.py', 'ptm_resname_match'): {'C01': 'whether a modification mapping fits an atom (node_match of the modification mappings)'},
     ('vermouth/processors/do_mapping.py', 'node_matcher'): {'C01': 'whether a block mapping fits an atom'},
     ('vermouth/processors/do_mapping.py', 'node_should_exist'): {'C01': 'which atoms of a modification mapping are anchors in the molecule'},
+    ('vermouth/rcsu/go_utils.py', 'get_go_type_from_attributes'): {'C18': 'the two site types of a Go pair are looked up by residue number and chain'},
     ('vermouth/utils.py', 'first_alpha'): {'C04': 'element of an atom without one (add_element_attr): the embedding is element-preserving'},
     ('vermouth/utils.py', 'maxes'): {},
     # only "a partial node never makes the message fail": the warning the property demands must come out, whatever its wording
